@@ -22,6 +22,8 @@ K2: each converter joins the chunks, tests `b"\\x00" in content` first and retur
 LF; the to-CRLF conversion substitutes only LFs not already preceded by CR (regex literal with a negative look-behind),
 so canonical text is a fixed point of writer∘reader. K1: filtered_output_bytes applies writers in reversed stack order
 and filtered_input_file applies readers in stack order.
+Added while testing against seeded changes: Also: read converters are always applied once to [<file>.read()] (never
+block-wise) and internal_size_sha_file_byname goes through filtered_input_file.
 Does not decide: `re` substitution semantics on arbitrary CR/LF mixtures.
 """
 TO_LF, TO_CRLF, NATIVE = "_to_lf_converter", "_to_crlf_converter", "_native_output"
